@@ -182,6 +182,10 @@ func c15One(c *ev.Ctx, cs ev.Case) {
 	for k := 0; k < 3; k++ {
 		attrs := map[string]string{"kind": cc.Kind, "blob": names[k], "class": cc.BlobKind[k]}
 		got, gerr := dm.GetChunk(ids[k])
+		if present[k] != (gerr == nil) { // a chunk that is in the file (walker) is one the demuxer finds, empty ones at the very end included
+			c.Violate(cs, "metadata-not-readable", map[string]string{"kind": cc.Kind, "blob": names[k], "class": cc.BlobKind[k], "what": "presence"}, fmt.Sprintf("%s: chunk in the file=%v (walker), Demuxer.GetChunk err=%v", names[k], present[k], gerr), rep())
+			continue
+		}
 		if len(blobs[k]) > 0 {
 			if !present[k] || !bytes.Equal(walked[k], blobs[k]) {
 				c.Violate(cs, "metadata-not-stored", attrs, fmt.Sprintf("%s (%d bytes, %s): chunk present=%v, stored %d bytes (walker)", names[k], len(blobs[k]), cc.BlobKind[k], present[k], len(walked[k])), rep())
